@@ -975,11 +975,20 @@ impl CxxCodeBodyTranslator {
                 )
             }
             Rvalue::WriteSubscript(obj, index, r) => {
+                // The element is a QString. A string constant reaches here as a C string, which
+                // would be cut at the first NUL (and rejected under QT_NO_CAST_FROM_ASCII.)
+                let value = match r {
+                    tir::Operand::Constant(tir::Constant {
+                        value: tir::ConstantValue::CString(v),
+                        ..
+                    }) => format!("QStringLiteral({})", format_string_literal(v)),
+                    _ => self.format_operand(r),
+                };
                 format!(
                     "{}[{}] = {}",
                     self.format_operand(obj),
                     self.format_operand(index),
-                    self.format_operand(r),
+                    value,
                 )
             }
             Rvalue::MakeList(ty, xs) => {
